@@ -171,7 +171,11 @@ def rules(ctx: Ctx) -> None:
             if filt is False:
                 # sqlparse style: leading `if is_token_negligible(x): continue`
                 first = [s for s in n.body if not (isinstance(s, ast.Expr) and isinstance(s.value, ast.Constant))][:1]
-                if first and isinstance(first[0], ast.If) and ("is_token_negligible" in u(first[0].test) or "is_negligible" in u(first[0].test)) and any(isinstance(b, ast.Continue) for b in first[0].body):
+                # normal form of `if is_token_negligible(x): continue`: the whole rest of the body under `if not is_token_negligible(x):`
+                if first and isinstance(first[0], ast.If) and len([s for s in n.body if not (isinstance(s, ast.Expr) and isinstance(s.value, ast.Constant))]) == 1 and not first[0].orelse \
+                        and u(first[0].test) in (f"not is_token_negligible({u(n.target)})", f"not is_negligible({u(n.target)})"):
+                    filt = True
+                elif first and isinstance(first[0], ast.If) and ("is_token_negligible" in u(first[0].test) or "is_negligible" in u(first[0].test)) and any(isinstance(b, ast.Continue) for b in first[0].body):
                     filt = True
                 elif f.mod.name.startswith("sqllineage.core.parser.sqlparse") and not any("flag" in fl_ and True for fl_ in []):
                     pass
